@@ -48,7 +48,8 @@ Definition readying_completion_wakes_latest_waker : Prop :=
     EINTR/ECANCELED) and finds the queue full parks its waker at the end of [blocked] and
     submits nothing; a ring poll that enters the kernel (no completion pending) and whose enter
     reports success wakes the first [min cap |blocked|] parked wakers, in order, and keeps the
-    rest; otherwise it wakes no parked waker. Completion processing does not touch [blocked]. *)
+    rest; otherwise it wakes no parked waker. Completion processing does not touch [blocked];
+    the poll ends (repair of H15) with one more [wake_blocked] on the state after processing. *)
 Definition queue_full_waiter_is_parked : Prop :=
   (forall s i w o o1, nth_error (ops s) i = Some o -> has_room s = false ->
      let r := poll_start s i o1 w in
@@ -66,9 +67,40 @@ Definition queue_full_waiter_is_parked : Prop :=
         /\ (cq s = [] -> sq s = [] -> cq entered = [] ->
               snd (phase1 s) = [] /\ blocked (fst (phase1 s)) = blocked s)
         /\ (cq s <> [] -> phase1 s = (s, []))
-        /\ blocked (fst (ring_poll s)) = blocked (fst (phase1 s))
-        /\ snd (ring_poll s)
-           = snd (phase1 s) ++ snd (process (length (cq (fst (phase1 s)))) (fst (phase1 s)))).
+        /\ (let s2 := fst (process (length (cq (fst (phase1 s)))) (fst (phase1 s))) in
+            blocked s2 = blocked (fst (phase1 s))
+            /\ blocked (fst (ring_poll s)) = blocked (fst (wake_blocked s2))
+            /\ snd (ring_poll s)
+               = snd (phase1 s) ++ snd (process (length (cq (fst (phase1 s)))) (fst (phase1 s)))
+                 ++ snd (wake_blocked s2))).
+
+(** C03(b), what the repair of H15 adds: every ring poll ends by waking parked wakers for the
+    submission slots free at that moment ([avail]), oldest first. So a waker stays parked after
+    a ring poll only if every free slot has been matched by a wake-up of an older waiter, and
+    the OLDEST parked waker is woken by any ring poll that ends with room in the queue — whether
+    or not any operation completes. (With more parked wakers than free slots the younger ones
+    wait for a later poll: [parked_only_if_queue_full] below does not hold.) *)
+Definition end_of_poll_wakes_parked : Prop :=
+  forall s,
+    let s2 := fst (process (length (cq (fst (phase1 s)))) (fst (phase1 s))) in
+    let s' := fst (ring_poll s) in
+    let avail := N.to_nat (cap s2 - N.of_nat (length (sq s2))) in
+    (sq s' = sq s2 /\ cap s' = cap s /\ cap s2 = cap s)
+    /\ snd (wake_blocked s2) = map OWake (firstn avail (blocked s2))
+    /\ blocked s' = skipn avail (blocked s2)
+    /\ (blocked s' <> [] ->
+          length (firstn avail (blocked s2)) = avail
+          /\ avail = N.to_nat (cap s' - N.of_nat (length (sq s'))))
+    /\ (forall w r, blocked s = w :: r -> has_room s' = true -> In (OWake w) (snd (ring_poll s))).
+
+(** The stronger reading "after a ring poll a waker is parked only if the queue is full" is
+    false of the code: with one slot and three parked wakers a ring poll wakes two of them (one
+    after [enter], one at the end) and leaves the third parked although the queue is empty; it
+    is woken by the next poll. *)
+Definition parked_only_if_queue_full : Prop :=
+  forall cap0 kinds es, valid (init cap0 kinds) es ->
+    let s' := fst (run step (init cap0 kinds) (es ++ [RingPoll])) in
+    blocked s' <> [] -> (cap s' <= N.of_nat (length (sq s')))%N.
 
 (** ** Effects of the elementary functions on the table *)
 
@@ -303,7 +335,8 @@ Proof.
   intros Hi Hr Hw Hin Hrd. rewrite ring_poll_phases.
   assert (Hp : phase1 s = (s, [])) by (unfold phase1; destruct (cq s); [destruct Hin|reflexivity]).
   rewrite Hp. pose proof (process_wakes (length (cq s)) s i o rs w c (Nat.le_refl _) Hi Hr Hw Hin Hrd) as H.
-  destruct (process (length (cq s)) s) as [s2 o2]. exact H.
+  destruct (process (length (cq s)) s) as [s2 o2]. cbn [snd app] in *.
+  apply in_or_app. left. exact H.
 Qed.
 
 (** ** Polls and the ghost *)
@@ -408,7 +441,7 @@ Proof.
     destruct (kconsume_all_blocked (sq s) (take_sq s)) as [Hb Hc].
     pose proof (kconsume_all_sq' (sq s) (take_sq s)) as Hq.
     fold entered in Hb, Hc, Hq. cbn [take_sq set_sq blocked cap sq] in Hb, Hc, Hq.
-    split; [|split; [|split; [|split]]].
+    split; [|split; [|split]].
     + intros Hcq Hent. unfold phase1. rewrite Hcq. fold entered.
       assert (Hcond : negb (length (sq s) =? 0) || negb (length (cq entered) =? 0) = true).
       { destruct Hent as [H|H]; [destruct (sq s); [congruence|reflexivity]|].
@@ -418,11 +451,84 @@ Proof.
     + intros Hcq Hsq Hent. unfold phase1. rewrite Hcq. fold entered. rewrite Hsq, Hent. cbn.
       split; [reflexivity|]. exact Hb.
     + intros Hcq. unfold phase1. destruct (cq s); [congruence|reflexivity].
-    + rewrite ring_poll_phases. destruct (phase1 s) as [s1 o1]. cbn [fst].
+    + cbv zeta. rewrite ring_poll_phases. destruct (phase1 s) as [s1 o1]. cbn [fst snd].
       pose proof (process_blocked (length (cq s1)) s1) as Hp.
-      destruct (process (length (cq s1)) s1) as [s2 o2]. exact Hp.
-    + rewrite ring_poll_phases. destruct (phase1 s) as [s1 o1]. cbn [fst snd].
-      destruct (process (length (cq s1)) s1) as [s2 o2]. reflexivity.
+      destruct (process (length (cq s1)) s1) as [s2 o2]. cbn [fst snd] in *.
+      split; [exact Hp|]. split; reflexivity.
+Qed.
+
+Lemma update_cap s i c : cap (fst (update s i c)) = cap s.
+Proof.
+  unfold update. destruct (nth_error (ops s) i) as [o|]; [|reflexivity].
+  destruct (st o); try reflexivity.
+  - destruct (negb (more c) || _); [destruct (waker o)|]; reflexivity.
+  - destruct (negb (more c) || _); [destruct (waker o)|]; reflexivity.
+  - destruct (more c); reflexivity.
+Qed.
+
+Lemma process_cap f : forall s, cap (fst (process f s)) = cap s.
+Proof.
+  induction f as [|f IH]; intros s; cbn [process]; [reflexivity|].
+  destruct (cq s) as [|[t c] r]; [reflexivity|]. destruct t as [i|].
+  - pose proof (update_cap (pop_cq s (Some i) c r) i c) as Hu.
+    destruct (update (pop_cq s (Some i) c r) i c) as [s1 o1]. cbn [fst] in Hu.
+    specialize (IH s1). destruct (process f s1) as [s2 o2]. cbn [fst pop_cq cap] in *. congruence.
+  - rewrite IH. reflexivity.
+Qed.
+
+Lemma phase1_cap s : cap (fst (phase1 s)) = cap s.
+Proof.
+  unfold phase1. destruct (cq s); [|reflexivity].
+  destruct (kconsume_all_blocked (sq s) (take_sq s)) as [_ Hc].
+  destruct (negb _ || negb _); cbn [fst wake_blocked cap]; exact Hc.
+Qed.
+
+Lemma firstn_head_in {A} (w : A) r n : 0 < n -> In w (firstn n (w :: r)).
+Proof. destruct n; [lia|]. intros _. left. reflexivity. Qed.
+
+Lemma end_of_poll_wakes_parked_holds : end_of_poll_wakes_parked.
+Proof.
+  intros s s2 s' avail.
+  assert (Hs' : s' = fst (wake_blocked s2) /\ snd (ring_poll s)
+                = snd (phase1 s) ++ snd (process (length (cq (fst (phase1 s)))) (fst (phase1 s)))
+                  ++ snd (wake_blocked s2)).
+  { subst s' s2. rewrite ring_poll_phases. destruct (phase1 s) as [s1 o1]. cbn [fst snd].
+    destruct (process (length (cq s1)) s1) as [s2 o2]. split; reflexivity. }
+  destruct Hs' as [Hs' Hout].
+  assert (Hcap2 : cap s2 = cap s) by (subst s2; rewrite process_cap; apply phase1_cap).
+  assert (Hb2 : blocked s2 = blocked (fst (phase1 s))) by (subst s2; apply process_blocked).
+  split; [rewrite Hs'; cbn [wake_blocked fst sq cap]; auto|].
+  split; [reflexivity|]. split; [rewrite Hs'; reflexivity|]. split.
+  - intros Hne. rewrite Hs' in *. cbn [wake_blocked fst blocked sq cap] in *. fold avail in Hne |- *.
+    split; [|reflexivity]. rewrite firstn_length. apply Nat.min_l.
+    destruct (Nat.le_gt_cases avail (length (blocked s2))) as [H|H]; [exact H|].
+    exfalso. apply Hne. apply skipn_all2. lia.
+  - intros w r Hbl Hroom. rewrite Hout.
+    assert (Hav : 0 < avail).
+    { rewrite Hs' in Hroom. unfold has_room in Hroom. cbn [wake_blocked fst sq cap] in Hroom.
+      subst avail. lia. }
+    (* either [enter] already woke it, or it is still the oldest waiter at the end *)
+    assert (Hcase : In (OWake w) (snd (phase1 s)) \/ blocked (fst (phase1 s)) = w :: r).
+    { unfold phase1. destruct (cq s); [|right; exact Hbl].
+      destruct (kconsume_all_blocked (sq s) (take_sq s)) as [Hb Hc].
+      pose proof (kconsume_all_sq' (sq s) (take_sq s)) as Hq.
+      cbn [take_sq set_sq blocked cap sq] in Hb, Hc, Hq.
+      destruct (negb _ || negb _); [|right; cbn [fst]; rewrite Hb; exact Hbl].
+      left. cbn [wake_blocked snd]. apply in_or_app. right. rewrite Hb, Hc, Hq, Hbl. cbn [length].
+      apply in_map. apply firstn_head_in. subst avail. rewrite Hcap2 in Hav. lia. }
+    destruct Hcase as [H|H]; [apply in_or_app; left; exact H|].
+    apply in_or_app. right. apply in_or_app. right. cbn [wake_blocked snd]. fold avail.
+    rewrite Hb2, H. apply in_map. apply firstn_head_in. exact Hav.
+Qed.
+
+Lemma parked_only_if_queue_full_refuted : ~ parked_only_if_queue_full.
+Proof.
+  intros H.
+  specialize (H 1%N [(Single, true); (Single, true); (Single, true); (Single, true)]
+                [Poll 0 1%N; Poll 1 2%N; Poll 2 3%N; Poll 3 4%N]).
+  assert (Hv : valid (init 1 [(Single, true); (Single, true); (Single, true); (Single, true)])
+                 [Poll 0 1%N; Poll 1 2%N; Poll 2 3%N; Poll 3 4%N]) by (vm_compute; repeat split).
+  specialize (H Hv). vm_compute in H. specialize (H ltac:(discriminate)). apply H. reflexivity.
 Qed.
 
 (** ** Non-vacuity: a replaced waker (the latest one is woken) and a parked waiter. *)
